@@ -12,6 +12,7 @@ def main(argv):
     # panicking teardown) must not make the operator lose the subscriptions it already holds
     parts_multi.run(rep, PID, rep.tier == 'thorough')
     parts_multi.run_ho(rep, PID, rep.tier == 'thorough')
+    parts_multi.run_single(rep, PID, rep.tier == 'thorough')
     rep.cov['rule'] = common.PIPE_RULE + '; C14 looks at the source teardown counter in the very step in which an operator terminated the stream on a value (no further source event)'
     rep.cov['exhaustive'] = True
     rep.assumptions += ['bounded: scripts <= 3-4 notifications; chains <= 2 operators']
